@@ -10,7 +10,7 @@ def policy(leader=0, prog="A", out=True, consts=True, typed=True):
 
 
 def scenario(n=2, comps=1, leader=0, out=None, consts=None, conc=None, cancel=0, rpcfail=0, stray=0,
-             fix=None, record=False, pol=None, slow=None, prog="A"):
+             fix=None, record=False, pol=None, slow=None, prog="A", late=None):
     out = out if out is not None else [True] * n
     consts = consts if consts is not None else [True] * n
     if pol is None:
@@ -19,6 +19,8 @@ def scenario(n=2, comps=1, leader=0, out=None, consts=None, conc=None, cancel=0,
     sc = {"n": n, "conc": conc or [1] * n, "record": record, "pol": pol,
           "faults": {"cancel": cancel, "rpcfail": rpcfail, "stray": stray},
           "fix": dict(fix or FIX_NONE)}
+    if late:
+        sc["late"] = list(late)     # parties scheduled only when nothing else can move (validate arrives first)
     if slow:
         sc["slow"] = list(slow)     # [from, to]: MPC messages of this link are delivered as late as possible
     return sc
